@@ -14,7 +14,8 @@
 (*          s3 = -1 (a parameter domain whose limits depend on each other)   *)
 (*   tet  : the tetrahedron with corner c and edges s1, s2, s3 along x, y, z *)
 (*   shell: the cylindrical shell c1 <= r <= s1, c2 <= z <= s2 about the z   *)
-(*          axis;   ball : the ball of radius s1 about the origin            *)
+(*          axis;   ball : the ball of radius s1 about the origin;           *)
+(*          hball: its half y >= 0 (azimuth from 0 to pi)                    *)
 (* A value is q + p * pi with q, p rational: [q |-> Rat, p |-> Rat].        *)
 (*                                                                          *)
 (* What the statement of C13 requires of the library's functions is         *)
@@ -66,13 +67,16 @@ AllRegions == [
   shell    |-> Region("shell", T3(1, 0, 0), T3(2, 5, 0)),
   shellC   |-> Region("shell", T3(1, -1, 0), T3(3, 1, 0)),
   ball1    |-> Region("ball", T3(0, 0, 0), T3(1, 0, 0)),
-  ball2    |-> Region("ball", T3(0, 0, 0), T3(2, 0, 0))
+  ball2    |-> Region("ball", T3(0, 0, 0), T3(2, 0, 0)),
+  hball1   |-> Region("hball", T3(0, 0, 0), T3(1, 0, 0)),      \* the half y >= 0 of the ball (azimuth 0..pi)
+  hball2   |-> Region("hball", T3(0, 0, 0), T3(2, 0, 0))
 ]
 RegionsAll   == {AllRegions[n] : n \in DOMAIN AllRegions}
 RegionsQuick == {AllRegions[n] : n \in {"circle2", "ellipseC", "circleH", "rect", "rectH", "boxC",
-                                        "triC", "triH", "tetC", "shell", "ball2"}}
+                                        "triC", "triH", "tetC", "shell", "ball2", "hball1"}}
 
 RegionsCurved == {AllRegions[n] : n \in {"ellipseC", "circleH", "rectH", "triC", "triH"}}
+RegionsHB == {AllRegions["hball1"], AllRegions["hball2"]}
 RegionsPairs == {AllRegions[n] : n \in {"ellipseC", "rectH", "boxC", "triC", "tetC", "shell"}}
 
 \* the same point set with the opposite orientation
@@ -128,6 +132,17 @@ BallMoment(i, j, k) == IF ~AllEven(i, j, k) THEN RZero
                        ELSE Norm(4 * DF(i - 1) * DF(j - 1) * DF(k - 1), DF(i + j + k + 3))
 IntBall(p, r) == RSum(LAMBDA e : RMul(p[e], RMul(RPow(r.s[1], TotDeg(e) + 3), BallMoment(e[1], e[2], e[3]))), Supp(p))
 
+\* half ball y >= 0: in spherical coordinates (polar angle phi, azimuth theta in [0, pi])
+\*   int over the half sphere of w^e dOmega = int_0^pi sin^(i+j+1)(phi) cos^k(phi) dphi * int_0^pi cos^i(theta) sin^j(theta) dtheta
+\* for even j this is half of the whole sphere; for odd j (and even i, k) the first factor is
+\*   pi * (i+j)!! (k-1)!! / (i+j+k+1)!!  (Wallis, even powers)  and the second  2 * (i-1)!! (j-1)!! / (i+j)!!  (rational)
+HalfSphereMoment(i, j, k) ==
+  IF j % 2 = 0 THEN RDiv(IF AllEven(i, j, k) THEN Norm(4 * DF(i - 1) * DF(j - 1) * DF(k - 1), DF(i + j + k + 1)) ELSE RZero, R(2))
+  ELSE IF i % 2 = 1 \/ k % 2 = 1 THEN RZero
+  ELSE RMul(Norm(DF(i + j) * DF(k - 1), DF(i + j + k + 1)), Norm(2 * DF(i - 1) * DF(j - 1), DF(i + j)))
+IntHBall(p, r) == RSum(LAMBDA e : RMul(p[e], RDiv(RMul(RPow(r.s[1], TotDeg(e) + 3), HalfSphereMoment(e[1], e[2], e[3])),
+                                                  R(TotDeg(e) + 3))), Supp(p))
+
 IntRegion(p, r) == CASE r.k = "ell"   -> VPi(IntEllipse(p, r))
                      [] r.k = "rect"  -> VRat(IntRect(p, r))
                      [] r.k = "box"   -> VRat(PIntBox(p, r.c, r.s))
@@ -135,6 +150,7 @@ IntRegion(p, r) == CASE r.k = "ell"   -> VPi(IntEllipse(p, r))
                      [] r.k = "tet"   -> VRat(IntTet(p, r))
                      [] r.k = "shell" -> VPi(IntShell(p, r))
                      [] r.k = "ball"  -> VPi(IntBall(p, r))
+                     [] r.k = "hball" -> VPi(IntHBall(p, r))
 
 Div2(F) == PAdd(PDiff(F[1], 1), PDiff(F[2], 2))
 
@@ -243,6 +259,14 @@ BallSurface(F, r) ==
                                      SphereMoment(e[1] + Unit(v)[1], e[2] + Unit(v)[2], e[3] + Unit(v)[3]))), Supp(F[v]))
   IN VPi(RAdd(RAdd(one(1), one(2)), one(3)))
 
+\* half ball: the half sphere (moments above) and the flat disc y = 0 with normal -e_y (disc moments in x, z)
+HBallSurface(F, r) ==
+  LET one(v) == RSum(LAMBDA e : RMul(F[v][e], RMul(RPow(r.s[1], TotDeg(e) + 2),
+                                     HalfSphereMoment(e[1] + Unit(v)[1], e[2] + Unit(v)[2], e[3] + Unit(v)[3]))), Supp(F[v]))
+      disc == RSum(LAMBDA e : RMul(F[2][e], RMul(RPow(r.s[1], e[1] + e[3] + 2), EllMoment(e[1], e[3]))),
+                   {e \in Supp(F[2]) : e[2] = 0})
+  IN VPi(RSub(RAdd(RAdd(one(1), one(2)), one(3)), disc))
+
 -----------------------------------------------------------------------------
 (* Stokes' theorem on a curved surface spanned by the boundary of a planar region: the graph                 *)
 (*   z = G(x, y) = h + Bump(x, y),   Bump = 0 on the boundary of the region                                   *)
@@ -285,20 +309,28 @@ RhoPow(m) == [e \in Exps |-> IF e[3] = 0 /\ AllEven(e[1], e[2], 0) /\ e[1] + e[2
 RadPow(m) == [e \in Exps |-> IF AllEven(e[1], e[2], e[3]) /\ TotDeg(e) = 2 * m
                              THEN R(Fact(m) \div (Fact(e[1] \div 2) * Fact(e[2] \div 2) * Fact(e[3] \div 2)))
                              ELSE RZero]                                                   \* (x^2 + y^2 + z^2)^m
-NativeOK(n) == IF n.sys = "sph" THEN n.comp = 1 /\ n.a % 2 = 1 /\ n.c = 0
+\* (sys "sph", comp 2: the azimuthal field  m(x,y,z) * r sin(phi) e_theta = m * (-y, x, 0),  m = x^n.m a monomial)
+NativeOK(n) == IF n.sys = "sph" THEN (n.comp = 1 /\ n.a % 2 = 1 /\ n.c = 0) \/ (n.comp = 2 /\ n.m \in Exps)
                ELSE (n.comp \in {1, 2} /\ n.a % 2 = 1) \/ (n.comp = 3 /\ n.a % 2 = 0)
 NativeField(n) ==
-  IF n.sys = "sph"
+  IF n.sys = "sph" /\ n.comp = 2
+  THEN <<PNeg(PMono(EAdd(n.m, <<0, 1, 0>>), ROne)), PMono(EAdd(n.m, <<1, 0, 0>>), ROne), PZero>>
+  ELSE IF n.sys = "sph"
   THEN LET P == RadPow((n.a - 1) \div 2) IN <<PMulMono(P, <<1, 0, 0>>), PMulMono(P, <<0, 1, 0>>), PMulMono(P, <<0, 0, 1>>)>>
   ELSE LET P == PMulMono(RhoPow(IF n.comp = 3 THEN n.a \div 2 ELSE (n.a - 1) \div 2), <<0, 0, n.c>>) IN
        CASE n.comp = 1 -> <<PMulMono(P, <<1, 0, 0>>), PMulMono(P, <<0, 1, 0>>), PZero>>
          [] n.comp = 2 -> <<PNeg(PMulMono(P, <<0, 1, 0>>)), PMulMono(P, <<1, 0, 0>>), PZero>>
          [] n.comp = 3 -> <<PZero, PZero, P>>
+NoM == <<0, 0, 0>>
 NativeFields(k) ==
-  IF k = "ball" THEN {[sys |-> "sph", comp |-> 1, a |-> a, c |-> 0] : a \in {1, 3}}
-  ELSE {[sys |-> "cyl", comp |-> 1, a |-> a, c |-> c] : a \in {1, 3}, c \in 0..2}
-       \cup {[sys |-> "cyl", comp |-> 2, a |-> 1, c |-> c] : c \in 0..1}
-       \cup {[sys |-> "cyl", comp |-> 3, a |-> a, c |-> c] : a \in {0, 2}, c \in 0..3}
+  IF k \in {"ball", "hball"}
+  THEN {[sys |-> "sph", comp |-> 1, a |-> a, c |-> 0, m |-> NoM] : a \in {1, 3}}
+       \cup {[sys |-> "sph", comp |-> 2, a |-> 0, c |-> 0, m |-> m] : m \in {e \in Exps : TotDeg(e) <= 1}}
+  ELSE {[sys |-> "cyl", comp |-> 1, a |-> a, c |-> c, m |-> NoM] : a \in {1, 3}, c \in 0..2}
+       \cup {[sys |-> "cyl", comp |-> 2, a |-> 1, c |-> c, m |-> NoM] : c \in 0..1}
+       \cup {[sys |-> "cyl", comp |-> 3, a |-> a, c |-> c, m |-> NoM] : a \in {0, 2}, c \in 0..3}
+SolidSurface(F, r) == CASE r.k = "shell" -> ShellFaces(F, r) [] r.k = "ball" -> BallSurface(F, r)
+                        [] r.k = "hball" -> HBallSurface(F, r)
 TermSet(p) == {<<e, p[e]>> : e \in Supp(p)}
 
 -----------------------------------------------------------------------------
@@ -324,14 +356,14 @@ Gauss  == CASE reg.k = "box"   -> BoxFaces(fld, reg) = FluxByGauss(fld, reg)
             [] reg.k = "tet"   -> TetFaces(fld, reg) = FluxByGauss(fld, reg)
             [] reg.k = "shell" -> ShellFaces(fld, reg) = FluxByGauss(fld, reg)
             [] reg.k = "ball"  -> BallSurface(fld, reg) = FluxByGauss(fld, reg)
+            [] reg.k = "hball" -> HBallSurface(fld, reg) = FluxByGauss(fld, reg)
             [] OTHER -> TRUE
 \* the same for the fields given natively in curvilinear components (checked once per shell / ball)
 GaussNative ==
-  (terms = <<>> /\ reg.k \in {"shell", "ball"}) =>
+  (terms = <<>> /\ reg.k \in {"shell", "ball", "hball"}) =>
      \A n \in NativeFields(reg.k) :
         /\ NativeOK(n)
-        /\ (IF reg.k = "shell" THEN ShellFaces(NativeField(n), reg) ELSE BallSurface(NativeField(n), reg))
-             = FluxByGauss(NativeField(n), reg)
+        /\ SolidSurface(NativeField(n), reg) = FluxByGauss(NativeField(n), reg)
 
 Fns(r) == IF r.k \in PlanarKinds THEN {"circ", "flux2"} ELSE {"flux3"}
 ReverseNegates ==
@@ -357,7 +389,7 @@ ITypeOK == /\ TypeOK /\ reg \in Regions
 -----------------------------------------------------------------------------
 (* emission (spec -> code): expected values of every function for the field and the region *)
 INativeEmit ==
-  (terms = <<>> /\ reg.k \in {"shell", "ball"}) =>
+  (terms = <<>> /\ reg.k \in {"shell", "ball", "hball"}) =>
      \A n \in NativeFields(reg.k) :
         PrintT(ToJson([native |-> n, reg |-> reg,
                        cart |-> <<TermSet(NativeField(n)[1]), TermSet(NativeField(n)[2]), TermSet(NativeField(n)[3])>>,
